@@ -251,9 +251,11 @@ pub fn bfs<H: Harness>(h: &H, seeds: Vec<Vec<H::Op>>, lim: &Limits, stats: &Stat
     let mut depth = 0u32;
 
     while !frontier.is_empty() && violation.is_none() {
-        if let Some(md) = lim.max_depth {
-            if depth >= md {
-                cap_hit = Some(format!("depth bound {md}"));
+        // at the depth bound the last level is still checked state by state (probes), but not expanded
+        let at_bound = lim.max_depth.map_or(false, |md| depth >= md);
+        if at_bound {
+            cap_hit = Some(format!("depth bound {}", lim.max_depth.unwrap()));
+            if !lim.run_probes {
                 break;
             }
         }
@@ -346,6 +348,9 @@ pub fn bfs<H: Harness>(h: &H, seeds: Vec<Vec<H::Op>>, lim: &Limits, stats: &Stat
                                 break;
                             }
                         };
+                        if at_bound {
+                            continue;
+                        }
                         crate::crumbs::set_state(&hist, &ops);
                         for (oi, op) in ops.iter().enumerate() {
                             crate::crumbs::set_op(oi as i64);
@@ -391,6 +396,9 @@ pub fn bfs<H: Harness>(h: &H, seeds: Vec<Vec<H::Op>>, lim: &Limits, stats: &Stat
                 hist.push(op);
             }
             violation = Some((hist, m));
+            break;
+        }
+        if at_bound {
             break;
         }
         // deterministic merge
